@@ -178,18 +178,18 @@ def _overlay(db, chk, cp):
            accepted="for ev_idx, event in enumerate(raw_events): if ev_idx in critical_path_graph.critical_path_events_set: event['args']['critical'] = 1",
            why="event ids are positions in the file's event list (C01): another start offset marks the neighbours")
     # edge source
-    iff = [n for n in walk_no_nested(f) if isinstance(n, ast.If) and ast.unparse(n.test) == "show_all_edges"]
+    iff = [n for n in walk_no_nested(f) if isinstance(n, ast.If) and ast.unparse(H.norm_if(n)[0]) == "show_all_edges" and n.orelse]
     ok_src = False
     det2 = []
     if len(iff) == 1:
-        els = iff[0].orelse
+        _t, show_all_body, els = H.norm_if(iff[0])
         det2 = [ast.unparse(s)[:160] for s in els]
         ok_src = len(els) == 1 and (H.match("$edges = ($e for $e in critical_path_graph.critical_path_edges_set)", els[0]) is not None or
                                     H.match("$edges = critical_path_graph.critical_path_edges_set", els[0]) is not None or
                                     H.match("$edges = list(critical_path_graph.critical_path_edges_set)", els[0]) is not None)
         edges_var = H.name_id(els[0].targets[0]) if ok_src else None
         zero_filters = [n for n in walk_no_nested(f) if isinstance(n, ast.Call) and "_is_zero_weight_launch_edge" in ast.unparse(n.func)]
-        inside = all(any(z is x for b in iff[0].body for x in ast.walk(b)) for z in zero_filters)
+        inside = all(any(z is x for b in show_all_body for x in ast.walk(b)) for z in zero_filters)
         ok_src = ok_src and inside
         det2.append(f"zero-weight filter inside the show_all_edges branch: {inside}")
     chk.ob(rule, "edges drawn when not showing all edges = exactly the critical path's edges (the zero-weight launch filter applies to the show-all view only)", ok_src if len(iff) == 1 else None, where,
@@ -245,8 +245,14 @@ def _compression(db, chk, tf, tm, tp):
             found = False
             while cur is not None and cur is not f:
                 if isinstance(cur, (ast.If, ast.IfExp)) and any(t is x for t in tests for x in ast.walk(cur.test)):
-                    in_true = any(c is x for x in (ast.walk(cur.body) if isinstance(cur, ast.IfExp) else [y for b in cur.body for y in ast.walk(b)]))
-                    found = in_true
+                    neg = 0
+                    tt = cur.test
+                    while isinstance(tt, ast.UnaryOp) and isinstance(tt.op, ast.Not):
+                        neg += 1
+                        tt = tt.operand
+                    body_nodes = list(ast.walk(cur.body)) if isinstance(cur, ast.IfExp) else [y for b in cur.body for y in ast.walk(b)]
+                    else_nodes = list(ast.walk(cur.orelse)) if isinstance(cur, ast.IfExp) else [y for b in cur.orelse for y in ast.walk(b)]
+                    found = any(c is x for x in (body_nodes if neg % 2 == 0 else else_nodes))
                     break
                 cur = mod.parent.get(id(cur))
             guarded = guarded and found
